@@ -335,11 +335,13 @@ class STok:
         ot = getattr(o, "term", ("const", repr(o)))
         st, flip = self.term, False
         if op in ("mul", "div"):
-            # canonical form of a product: the sign of either factor is the sign of the product
-            if isinstance(st, tuple) and st and st[0] == "neg":
-                st, flip = st[1], not flip
-            if isinstance(ot, tuple) and ot and ot[0] == "neg":
-                ot, flip = ot[1], not flip
+            # canonical form of a product: the sign of either factor is the sign of the product.  Of {t, -t} the representative with
+            # the smaller text is the factor, so that signs buried under slices / re-indexing are found as well
+            base, f1 = up_to_sign(self)
+            st, flip = base.term, f1
+            if isinstance(o, STok):
+                ob, f2 = up_to_sign(o)
+                ot, flip = ob.term, flip != f2
         r = STok((op, ot, st) if rev else (op, st, ot), self.shape)
         return -r if flip else r
 
@@ -416,6 +418,15 @@ class STok:
 
     def __repr__(self):
         return f"STok{self.term}{self.shape}"
+
+
+def up_to_sign(t):
+    """(canonical representative of {t, -t}, whether t is its negative)"""
+    nt = -t
+    ra, rb = repr(t.term), repr(nt.term)
+    if (rb.count("'neg'"), rb) < (ra.count("'neg'"), ra):
+        return nt, True
+    return t, False
 
 
 def sum_term(terms):
@@ -635,15 +646,23 @@ def _structured_product(a, b, axa, axb, shape):
 def shaped_backend():
     """abstract backend functions over shaped tokens (shapes are tracked, contents are terms)"""
 
+    # the declared gauge facts -A = (-Q) R and -A = (-U) s V (DESIGN section 2, C09) are applied as a normal form, so that a
+    # factorisation of the stored data of a block with a pending sign and the factorisation of its value are the same terms
+    _up_to_sign = up_to_sign
+
     def qr(t):
         m, n = t.shape
         k = min(m, n)
-        return STok(("q", t.term), (m, k)), STok(("r", t.term), (k, n))
+        base, flipped = _up_to_sign(t)
+        q = STok(("q", base.term), (m, k))
+        return (-q if flipped else q), STok(("r", base.term), (k, n))
 
     def svd(t, *a, **kw):
         m, n = t.shape
         k = min(m, n)
-        return STok(("u", t.term), (m, k)), STok(("s", t.term), (k,)), STok(("vh", t.term), (k, n))
+        base, flipped = _up_to_sign(t)
+        u = STok(("u", base.term), (m, k))
+        return (-u if flipped else u), STok(("s", base.term), (k,)), STok(("vh", base.term), (k, n))
 
     def eigh(t):
         m, n = t.shape
@@ -825,9 +844,7 @@ def shaped_libfn(table=None):
             shp = next((a.shape for a in args if isinstance(a, STok)), ())
             if short in SIGN_EVEN and len(args) == 1 and isinstance(args[0], STok):
                 # f(-t) = f(t): of the two canonical forms of +-t keep the smaller one
-                a, b = args[0], -args[0]
-                t = min((a.term, b.term), key=repr)
-                return STok((short, t), shp)
+                return STok((short, up_to_sign(args[0])[0].term), shp)
             head = {"sum": "total"}.get(short, short)  # ("sum", ...) is the canonical form of an addition of terms
             return STok((head,) + tuple(getattr(a, "term", ("const", repr(a))) for a in args), shp)
 
